@@ -12,32 +12,41 @@ THEOREMS = ["C11_spacing_tol", "C11_congruent_tol", "C11_iff", "C11_refuse", "C1
 ALLOWED_AXIOMS = []
 RULE = ("synthetic in-memory DICOM series: S<=4 x T<=3 x V<=3 grids (thorough: S<=6, T<=4) in 7 orientations "
         "(axial, in-plane rotation, sagittal, coronal, two 3-4-5 obliques, one 2-3-6 double oblique) x both slice "
-        "directions; explicit time / vector / both orderings (plain key, DicomOrdering with abs_ordering, staggered time "
-        "values that straddle volume boundaries) or guessed key with decoy keys; per-file BitsStored / "
-        "PixelRepresentation / pixel range / AcquisitionTime presence varied; x 27 defect classes (none, drop 1 / k "
-        "files, drop a volume, drop a slice position, duplicate, misfiled duplicate, tie straddling a volume "
-        "boundary, irregular gap 0.8..25 %, Rows / Columns +1, PixelSpacing and orientation perturbed below / above "
-        "5e-5, no pixel data, colliding file, missing ordering key, extra slice position, vector value moved for a "
-        "whole volume, vector values on unequal numbers of whole volumes (n_vols mod n_vec != 0 with S mod n_vec = 0 and != 0), files moved between vector components so that one volume-sized chunk straddles two vector "
-        "values, positions swapped between volumes, ordinate not in abs_ordering) x random add order x random order "
-        "of the four queries; a case is non-trivial when at least one add is refused, or a query raises, or the "
-        "stack has more than one volume")
+        "directions; explicit time / vector / both orderings (plain key, DicomOrdering with abs_ordering or abs_as_str, "
+        "staggered time values that straddle volume boundaries) or guessed key with decoy keys; default extractor or a "
+        "hand-built meta argument; per-file BitsStored / PixelRepresentation / pixel range / AcquisitionTime presence "
+        "varied; x 27 defect classes (none, drop 1 / k files, drop a volume, drop a slice position, duplicate, misfiled "
+        "duplicate, tie straddling a volume boundary, irregular gap 0.8..25 %, Rows / Columns +1, PixelSpacing and "
+        "orientation perturbed below / above 5e-5, no pixel data, colliding file, missing ordering key, extra slice "
+        "position, vector value moved for a whole volume, vector values on unequal numbers of whole volumes, files "
+        "moved between vector components, positions swapped between volumes, ordinate not in abs_ordering), 15 % with "
+        "a second defect on top, x random add order, 30 % with queries interleaved between the adds, x the queries "
+        "shape / data / affine / to_nifti (several voxel orders, None, embed) / to_nifti_wrapper in random order.  "
+        "Every add and every query is judged against the generator's ground truth (never a library call); the "
+        "order of the files in returned voxels is read off the pixel values.  Non-trivial: at least two files "
+        "accepted and at least one query answered")
 TRUSTED_BASE = [
-    "nibabel DicomWrapper (slice_indicator, affine) and dcmstack.extract.default_extractor are contracts: the per-file "
-    "abstraction given to the model (slice position, ordinates, guess-key values, Rows/Columns/PixelSpacing/"
-    "ImageOrientationPatient) is read from them by props/stacklib.abstract_file, not recomputed",
+    "nibabel DicomWrapper (slice_indicator, affine, get_data) and pydicom are contracts; the per-file abstraction "
+    "given to the Coq model is read from them and from the meta dictionary add_dcm works with "
+    "(props/stacklib.abstract_file) as model INPUT only: the oracle clause `abstraction == generator spec` "
+    "(stacklib.spec_truth / abstraction_diff) checks it, and every expected refusal, cell, shape and file order of "
+    "the oracle is computed from the generator's spec",
     "numpy defaults rtol=1e-5, atol=1e-8 of np.allclose are constants of the model (Stack.Model.np_rtol, np_atol)",
     "Python list.sort is a stable sort and raises TypeError when None meets a number (Stack.Model.ssort, all_comparable)",
 ]
 ASSUMPTIONS = [
     "classic single-frame data sets only (no mosaic / enhanced multi-frame wrappers)",
-    "ordinates and guess-key values are numbers or fixed-width TM strings (string order = numeric order); NaN excluded",
+    "ordinates and guess-key values are numbers, or strings (every TM form: the extractor hands the raw string to the sorter) embedded order- and equality-preservingly for Python's string comparison; a key mixing strings and numbers, and NaN, are excluded",
     "float arithmetic of the spacing / congruence tests is modelled in exact rationals: generated perturbations stay "
     "away from the tolerance boundaries (spacing irregularities 0.8 %..25 % vs thresholds 6.4 % / 8 %, congruence "
     "perturbations 2^-17, 2^-16 below and 2^-12, 2^-11 above 5e-5)",
+    "exception classes: InvalidStackError (named by the property) and the three classes documented by add_dcm are "
+    "compared exactly; an ordinate that cannot be evaluated (value not in abs_ordering) and a file without a cell "
+    "(explicit key missing on some files only: TypeError inside list.sort) count as refusals by ANY exception",
     "C11_iff and the refusal theorems are stated for stacks reachable from an empty stack by add_dcm / queries and "
-    "exclude the TypeError case (an explicit ordering key missing from some but not all files); that case is "
-    "exercised by the correspondence run only (kind missing_key, without vector order)",
+    "exclude the TypeError case",
+    "only public results are observed; a refused add leaving the stack unchanged is observed through the later "
+    "queries (they are judged on the files accepted so far)",
     "time ordinates are not required to be uniform inside a volume: the time coordinate of a file is its volume's "
     "rank in the sorted order (DESIGN C11 definition note)",
 ]
@@ -86,19 +95,51 @@ def gen_cases(rng, tier):
         files = L.grid_from_config(rng, cfg)
         attrs = L.vary_attrs(rng, cfg, files)
         files, note = L.apply_defect(rng, cfg, files, defect)
+        if rng.random() < 0.15:
+            # a second, independent defect on top
+            d2 = rng.choice(SECOND_DEFECTS)
+            try:
+                files, note2 = L.apply_defect(rng, cfg, files, d2)
+                note['second'] = note2
+            except (IndexError, ValueError, KeyError):
+                pass
         order = L.add_order(rng, files)
         qs = [list(q) for q in QUERIES]
+        if rng.random() < 0.4:
+            qs.append(['wrapper', rng.choice(['', 'LAS', 'RPI'])])
         rng.shuffle(qs)
-        if rng.random() < 0.3:
-            qs[-1:] = [['nifti', rng.choice(['', 'RAS', 'LPI']), rng.random() < 0.5]] if qs[-1][0] == 'nifti' else qs[-1:]
+        for q in qs:
+            if q[0] == 'nifti' and rng.random() < 0.3:
+                q[1:] = [rng.choice(['', 'RAS', 'LPI', None]), rng.random() < 0.5]
+        ops = []
+        early = rng.random() < 0.3            # histories: queries while files are still being added
+        for i in order:
+            ops.append(['add', i])
+            if early and rng.random() < 0.2:
+                ops.append(list(rng.choice(QUERIES + [['wrapper', '']])))
+        ops += qs
         note['attrs'] = attrs
         case = {'kind': '%s/%s' % (cfg['mode'], defect), 'note': note,
                 'dims': [cfg['S'], cfg['T'], cfg['V']], 'orient': cfg['orient'], 'direction': cfg['direction']}
+        if rng.random() < 0.15:
+            case['meta_arg'] = True           # add_dcm(dcm, meta) with a hand-built meta dictionary
         case.update(L.case_header(cfg))
         case['files'] = files
-        case['ops'] = [['add', i] for i in order] + qs
+        case['ops'] = ops
+        if not L.case_valid(case):
+            # the file with the out-of-tolerance orientation would become the reference: put a regular file first
+            good = [i for i in order if not files[i].get('notfirst') and files[i].get('pix', True)]
+            if not good:
+                continue
+            case['ops'] = [['add', good[0]]] + [op for op in ops if op != ['add', good[0]]]
+            if not L.case_valid(case):
+                continue
         cases.append(case)
     return cases
+
+
+SECOND_DEFECTS = ['drop1', 'duplicate', 'nopix', 'rows', 'cols', 'spacing_hi', 'spacing_lo', 'extra_position',
+                  'collide', 'orient_hi', 'gap']
 
 
 def run_impl(case):
@@ -108,9 +149,9 @@ def run_impl(case):
 
 
 def coq_case(case, obs):
-    # C11 does not talk about the array's data type: that observation belongs to C12 / C02
+    # C11 does not talk about the array's data type or the header fields: those observations belong to C12 / C02
     if isinstance(obs, dict) and 'ops' in obs:
-        obs = dict(obs, ops=[dict(o, dtype=None) for o in obs['ops']])
+        obs = dict(obs, ops=[dict(o, dtype=None, pixdim4=None, phase=None) for o in obs['ops']])
     return L.coq_case(case, obs)
 
 
@@ -123,67 +164,114 @@ IMPL_TIMEOUT = 60
 NAME = "main"
 
 
-def _accepted(case, obs):
-    adds = [(op, o) for op, o in zip(case['ops'], obs['ops']) if op[0] == 'add']
-    return adds, [obs['files'][op[1]] for op, o in adds if o['r'] == 'ok']
+def grid_shape(ref, g):
+    S, T, V = g[0], g[1], g[2]
+    want = [ref['rows'], ref['cols'], S, T, V]
+    if V == 1:
+        want = want[:-1]
+        if T == 1:
+            want = want[:-1]
+    return want
 
 
-def oracle(case, obs):
-    """C11 on the implementation alone: (1) every add is refused / accepted as the property says and a
-    refused add leaves the file list unchanged; (2) the four queries all raise InvalidStackError when the
-    accepted files do not tile a complete grid (Python transcription of the spec, spacing tolerance 4 %),
-    and all succeed with the grid's shape when they do."""
-    if not isinstance(obs, dict) or 'ops' not in obs:
-        return None
+def judge(case, obs):
+    """All clauses of C11, evaluated on the implementation's PUBLIC results against the generator's ground truth
+    (props/stacklib.spec_truth): -> list of (code, message).
+      add/...        every add is accepted / refused as the property says (documented exception classes exact;
+                     an ordinate that cannot be evaluated: any exception)
+      nongrid-...    the accepted files do not tile a complete grid: the query must raise InvalidStackError
+      mixed-...      a file without a cell (ordering key missing on some files only): no query may succeed
+      grid-rejected  a complete grid is never rejected
+      shape, file-count, order   the result has the grid's dimensions, holds every accepted file, and the files
+                     appear in the order the property demands (volumes by vector then time ordinate, inside a
+                     volume by slice position; a conversion may reverse the slice direction)
+      abstraction    the library-derived per-file abstraction given to the Coq model equals the ground truth"""
+    out = []
     ct, cv = case.get('time_order') is not None, case.get('vector_order') is not None
-    adds, acc = _accepted(case, obs)
-    exp = L.expected_add(obs['files'], [op[1] for op, o in adds], ct, cv)
-    prev_ids = []
-    for (op, o), e in zip(adds, exp):
-        if o['r'] != e:
-            return 'add of file %d: expected %s, implementation %s' % (op[1], e, o['r'])
-        if e != 'ok' and (o['ids'] != prev_ids or not o['dirty']):
-            return 'refused add of file %d changed the stack' % op[1]
-        prev_ids = o['ids']
-    g = L.grid_complete(acc, ct, cv, obs['guesses'])
-    if g == 'mixed':
-        return None
-    qs = [(op, o) for op, o in zip(case['ops'], obs['ops']) if op[0] != 'add']
-    for op, o in qs:
-        if g is None:
-            if o['r'] == 'ok':
-                return 'files do not tile a complete grid but %s succeeded (shape %s, %d files accepted)' % (
-                    op[0], o.get('shape'), len(acc))
-            if o['r'] != 'EInvalidStack':
-                return 'incomplete grid: %s raised %s instead of InvalidStackError' % (op[0], o['r'])
+    truth = [L.spec_truth(f, case) for f in case['files']]
+    acc, ref, cells = [], None, set()
+    for op, o in zip(case['ops'], obs['ops']):
+        if op[0] == 'add':
+            f = truth[op[1]]
+            e = L.expected_add_one(f, ref, cells, ct, cv)
+            r = o['r']
+            good = (r == 'ok') if e == 'ok' else (r != 'ok') if e == 'refused' else (r == e)
+            if not good:
+                out.append(('add/expected-%s' % e, 'add of file %d: expected %s, implementation %s' % (op[1], e, r)))
+            if r == 'ok':
+                acc.append(f)
+                cells.add(L.cell_of(f, ct, cv))
+                if ref is None:
+                    ref = f
+            continue
+        if op[0] == 'clear':
+            acc, ref, cells = [], None, set()
+            continue
+        if op[0] == 'mutate':
+            continue
+        q = op[0]
+        g = L.grid_complete(acc, ct, cv, L.GUESS_TAGS, with_order=True)
+        r = o['r']
+        if g == 'mixed':
+            if r == 'ok':
+                out.append(('mixed-converted/' + q, 'a file has no time / vector ordinate but %s succeeded' % q))
+        elif g is None:
+            if r == 'ok':
+                out.append(('nongrid-converted/' + q, 'files do not tile a complete grid but %s succeeded (shape %s, '
+                            '%d files accepted)' % (q, o.get('shape'), len(acc))))
+            elif r != 'EInvalidStack':
+                out.append(('nongrid-wrong-exception/' + q, 'incomplete grid: %s raised %s instead of InvalidStackError'
+                            % (q, r)))
         else:
-            if o['r'] != 'ok':
-                return 'complete %dx%dx%d grid rejected by %s with %s' % (g[0], g[1], g[2], op[0], o['r'])
-            if o['shape'] is not None:
+            if r != 'ok':
+                out.append(('grid-rejected/' + q, 'complete %dx%dx%d grid rejected by %s with %s' % (g[0], g[1], g[2], q, r)))
+                continue
+            if o.get('shape') is not None:
                 nout = 1
                 for x in o['shape'][2:]:
                     nout *= x
                 if nout != len(acc):
-                    return 'output holds %d files, %d were accepted' % (nout, len(acc))
-                S, T, V = g
-                want = [acc[0]['rows'], acc[0]['cols'], S, T, V]
-                if V == 1:
-                    want = want[:-1]
-                    if T == 1:
-                        want = want[:-1]
-                if o['shape'] != want:
-                    return 'shape %s, grid dimensions %s' % (o['shape'], want)
-    return None
+                    out.append(('file-count/' + q, 'output holds %d files, %d were accepted' % (nout, len(acc))))
+                if o['shape'] != grid_shape(ref, g):
+                    out.append(('shape/' + q, 'shape %s, grid dimensions %s' % (o['shape'], grid_shape(ref, g))))
+            if o.get('order') is not None:
+                want = g[3]
+                S = g[0]
+                flipped = []
+                for k in range(0, len(want), S):
+                    flipped += want[k:k + S][::-1]
+                okay = o['order'] == want or (q in ('nifti', 'wrapper') and o['order'] == flipped)
+                if not okay:
+                    out.append(('order/' + q, 'files appear in the order %s, the grid order is %s' % (o['order'], want)))
+    for f, a in zip(truth, obs['files']):
+        d = L.abstraction_diff(a, f)
+        if d:
+            out.append(('abstraction/' + d, 'file %d: the library-derived %s differs from the generator spec' % (f['id'], d)))
+            break
+    return out
+
+
+def oracle(case, obs):
+    """one message per case: '[code] text' (the code is the signature)"""
+    if not isinstance(obs, dict) or 'ops' not in obs:
+        return None
+    msgs = judge(case, obs)
+    if not msgs:
+        return None
+    return '[%s] %s' % msgs[0]
 
 
 def signature(case, obs, msg):
-    return 'c11/' + msg.split(':')[0].split(' (')[0][:40].replace(' ', '-')
+    return 'c11/' + (msg[1:msg.index(']')] if msg.startswith('[') and ']' in msg else 'other')
 
 
 def nontrivial(case, obs):
+    """at least two files were accepted and at least one query was answered (result or InvalidStackError)"""
     if not isinstance(obs, dict) or 'ops' not in obs:
         return False
-    return any(o['r'] != 'ok' for o in obs['ops']) or (case.get('dims', [1, 1, 1])[1] * case.get('dims', [1, 1, 1])[2] > 1)
+    nacc = len([1 for op, o in zip(case['ops'], obs['ops']) if op[0] == 'add' and o['r'] == 'ok'])
+    nq = len([1 for op, o in zip(case['ops'], obs['ops']) if op[0] != 'add' and o['r'] in ('ok', 'EInvalidStack')])
+    return nacc >= 2 and nq >= 1
 
 
 def shrink(case):
